@@ -160,12 +160,16 @@ class Table:
     def __init__(self):
         self.ops = []       # (tokens, id, coq rule, cap)
         self.next = 1
+        self.where = {}     # id -> (branch, step)   (handler: branch -1, step = max)
+        self.cur = (-1, -1)
 
     def new(self, mk):
         i = self.next
         self.next += 1
         toks, rule, cap = mk(i)
         self.ops.append((toks, i, rule, cap))
+        for j in range(i, self.next):
+            self.where[j] = self.cur
         return ' '.join(toks).replace(': :', '::')
 
     def coq(self):
@@ -363,6 +367,7 @@ def typed_prog(rng, kind, profile, family=None, handler=None, lets=(), **kw):
             if k >= d:
                 continue
             br = brs[b]
+            g.tab.cur = (b, k)
             if k == 0:
                 toks, cv = val_rust(br['t'], rng, fail=rng.random() < g.fail_rate / 2)
                 br['init'] = g.call(cv_fn(br['t']), [toks], '(KConst %s)' % cv)
@@ -386,6 +391,7 @@ def typed_prog(rng, kind, profile, family=None, handler=None, lets=(), **kw):
     branches = [Branch(br['init'], br['acts'], ('x%d' % b) if b in lets else None) for b, br in enumerate(brs)]
     h = None
     n = len(profile)
+    g.tab.cur = (-1, max(profile))
     if handler:
         if handler == 'then':
             h = ('then', g.tab.new(lambda i: (['hd%d' % n, '(', str(i), ')'], 'KTuple', False)))
